@@ -27,6 +27,7 @@ CONSTANTS Lifetimes,            \* lifetimes (ms) of the relation part
           Dev_RenewFloorSeconds,
           L, Step, MaxTime,     \* state machine: lifetime, tick, horizon (ms)
           Dev_ServerRekeyInPlace,
+          Dev_GateUsesOldToken,   \* (demo) a request issued during a renewal is sent with the superseded token
           Part                  \* "relation" | "machine"
 
 LifetimesQ == {100 * i : i \in 1..100} \cup {1000 * i : i \in 11..60} \cup {1333, 1334, 2001, 2666, 2667, 3999, 4000, 3600000}
@@ -39,15 +40,17 @@ RenewDelay(l) == IF Dev_RenewFloorSeconds THEN 1000 * ((l * 3) \div 4000)   \* f
 WindowOK(l, d) == 2 * d >= l /\ d < l
 
 VARIABLES lt,       \* relation: the lifetime of this state
-          now, tok, created, renewed, inflight, accepted, refused, srvKnows, cliKnows
-vars == <<lt, now, tok, created, renewed, inflight, accepted, refused, srvKnows, cliKnows>>
+          now, tok, created, renewed, inflight, accepted, refused, srvKnows, cliKnows,
+          renewing,   \* the renewal's OPN exchange is in flight (the client's request gate is locked)
+          gateQ       \* number of client requests issued meanwhile: they wait at the gate
+vars == <<lt, now, tok, created, renewed, inflight, accepted, refused, srvKnows, cliKnows, renewing, gateQ>>
 
 InitRel == /\ Part = "relation" /\ lt \in Lifetimes
            /\ now = 0 /\ tok = 1 /\ created = 0 /\ renewed = {} /\ inflight = {} /\ accepted = 0 /\ refused = 0
-           /\ srvKnows = {1} /\ cliKnows = {1}
+           /\ srvKnows = {1} /\ cliKnows = {1} /\ renewing = FALSE /\ gateQ = 0
 InitMac == /\ Part = "machine" /\ lt = L
            /\ now = 0 /\ tok = 1 /\ created = 0 /\ renewed = {} /\ inflight = {} /\ accepted = 0 /\ refused = 0
-           /\ srvKnows = {1} /\ cliKnows = {1}
+           /\ srvKnows = {1} /\ cliKnows = {1} /\ renewing = FALSE /\ gateQ = 0
 Init == InitRel \/ InitMac
 
 Row == [lifetime |-> lt, delay |-> RenewDelay(lt), lo |-> (lt + 1) \div 2, hi |-> lt,
@@ -56,36 +59,50 @@ InvRenewWindow == Part = "relation" => WindowOK(lt, RenewDelay(lt))
 InvEmit == Part = "relation" => PrintT("ROW " \o ToJson(Row))
 
 \* ---- machine ----
-Tick == /\ Part = "machine" /\ now + Step <= MaxTime
+Tick == /\ Part = "machine" /\ now + Step <= MaxTime /\ ~renewing
         /\ ~(tok \notin renewed /\ now >= created + RenewDelay(lt))      \* the renewal timer fires at its time
         /\ now' = now + Step
-        /\ UNCHANGED <<lt, tok, created, renewed, inflight, accepted, refused, srvKnows, cliKnows>>
+        /\ UNCHANGED <<lt, tok, created, renewed, inflight, accepted, refused, srvKnows, cliKnows, renewing, gateQ>>
 
-\* a message protected with the sender's current token is put on the wire
-Send(dir) == /\ Part = "machine" /\ Cardinality(inflight) < 2
-             /\ inflight' = inflight \cup {[dir |-> dir, tok |-> tok, at |-> now]}
-             /\ UNCHANGED <<lt, now, tok, created, renewed, accepted, refused, srvKnows, cliKnows>>
+\* a message protected with the sender's current token is put on the wire; a client request issued
+\* while a renewal is in flight waits at the request gate
+Send(dir) == /\ Part = "machine" /\ Cardinality(inflight) + gateQ < 2
+             /\ IF dir = "c2s" /\ renewing
+                THEN gateQ' = gateQ + 1 /\ UNCHANGED inflight
+                ELSE /\ inflight' = inflight \cup {[dir |-> dir, tok |-> tok, cur |-> tok, at |-> now, late |-> FALSE]}
+                     /\ UNCHANGED gateQ
+             /\ UNCHANGED <<lt, now, tok, created, renewed, accepted, refused, srvKnows, cliKnows, renewing>>
 
 Recv(m) == /\ m \in inflight
            /\ inflight' = inflight \ {m}
            /\ IF m.tok \in (IF m.dir = "c2s" THEN srvKnows ELSE cliKnows)
               THEN accepted' = 1 /\ UNCHANGED refused
               ELSE refused' = 1 /\ UNCHANGED accepted
-           /\ UNCHANGED <<lt, now, tok, created, renewed, srvKnows, cliKnows>>
+           /\ UNCHANGED <<lt, now, tok, created, renewed, srvKnows, cliKnows, renewing, gateQ>>
 
-\* the renewal: OPN request/response; both sides switch to the new token
-Renew == /\ Part = "machine" /\ tok \notin renewed /\ now >= created + RenewDelay(lt)
-         /\ renewed' = renewed \cup {tok}
-         /\ tok' = tok + 1 /\ created' = now
-         /\ srvKnows' = IF Dev_ServerRekeyInPlace THEN {tok + 1} ELSE srvKnows \cup {tok + 1}
-         /\ cliKnows' = cliKnows \cup {tok + 1}
-         /\ UNCHANGED <<lt, now, inflight, accepted, refused>>
+\* the renewal: the gate is locked and the OPN request goes out ...
+RenewStart == /\ Part = "machine" /\ ~renewing /\ tok \notin renewed /\ now >= created + RenewDelay(lt)
+              /\ renewing' = TRUE /\ renewed' = renewed \cup {tok}
+              /\ UNCHANGED <<lt, now, tok, created, inflight, accepted, refused, srvKnows, cliKnows, gateQ>>
 
-Next == Tick \/ Renew \/ (\E d \in {"c2s", "s2c"} : Send(d)) \/ (\E m \in inflight : Recv(m))
+\* ... the response arrives: both sides switch to the new token, the gate opens and the requests that
+\* waited there are sent with the token that is current now
+RenewEnd == /\ Part = "machine" /\ renewing
+            /\ renewing' = FALSE
+            /\ tok' = tok + 1 /\ created' = now
+            /\ srvKnows' = IF Dev_ServerRekeyInPlace THEN {tok + 1} ELSE srvKnows \cup {tok + 1}
+            /\ cliKnows' = cliKnows \cup {tok + 1}
+            /\ inflight' = IF gateQ = 0 THEN inflight
+                           ELSE inflight \cup {[dir |-> "c2s", tok |-> (IF Dev_GateUsesOldToken THEN tok ELSE tok + 1), cur |-> tok + 1, at |-> now, late |-> TRUE]}
+            /\ gateQ' = 0
+            /\ UNCHANGED <<lt, now, renewed, accepted, refused>>
+
+Next == Tick \/ RenewStart \/ RenewEnd \/ (\E d \in {"c2s", "s2c"} : Send(d)) \/ (\E m \in inflight : Recv(m))
 Spec == Init /\ [][Next]_vars
 
-InvRenewOnce  == Part = "machine" => \A t \in renewed : t < tok
+InvRenewOnce  == Part = "machine" => \A t \in renewed : t < tok \/ (t = tok /\ renewing)
 InvMacWindow  == Part = "machine" => (tok \notin renewed => now <= created + lt)   \* renewed before the token expires
 InvUsable     == refused = 0
-InvNoEarly    == Part = "machine" => \A t \in 1..tok : TRUE
+\* a request issued during a renewal is sent with the token the renewal installed
+InvGateUsesNew == \A m \in inflight : m.tok = m.cur      \* cur = the token that was current when it went out
 =============================================================================
